@@ -196,4 +196,15 @@ CHECKS["C03"] = {
     "note": "that generalised leapfrog, implicit midpoint and RATTLE compositions are symplectic is a cited theorem (A9), not proved; for those steps the check adds a BOUNDED native finite-difference Jacobian test (labelled bounded, not counted as proved). "
             "Whole-step traces use one polynomial target family (bounded in the function class). Reals for floats; dimension 2.",
 }
+CHECKS["C01"] = {
+    "engine": "pyvc",
+    "technique": "contract-based verification by symbolic execution of the real transition methods: loop invariants over the trajectory and doubling loops, a recursive contract for _build_tree proved by induction on depth, weakest pre-expectation treatment of `rng.uniform() < p`, additive interval functionals for tree weights; z3 with instantiated exp axioms",
+    "design_ref": "DESIGN.md section 7 C01",
+    "text": "Metropolis transitions: acceptance probability == min(1, exp(h0-h1)), accept / reject / error outcomes with the double direction flip, detailed balance of the involutive proposal and the orbit-level sum over start states == target weight, "
+            "n_step and accept_stat equal to ghost counts, state-independent random step count. Dynamic transitions: _build_tree contract (interval tree, additive weight / momentum / acceptance sums, n_step += 2^depth, uniform progressive selection "
+            "P(outer) = W_out/W, direction-independent termination decision) proved for every depth by induction; sample loop invariant (fair direction bit, doubling from the edge, biased progressive selection min(1, W_new/W_old), statistics == ghost counters); "
+            "slice level uniform under the start density and slice divergence test reads only (h, log_u); the two selection lemmas.",
+    "note": "orbit contract of the integrator (A6) from C02; the composition of the proved per-call contracts into stationarity of the tree kernels on an unbounded orbit is a paper lemma (A7), supported by a BOUNDED exact enumeration of the real kernels "
+            "(depth <= 3 multinomial, <= 2 slice with divergence cut, Metropolis static/random with symmetric step failures) labelled bounded; multinomial invariance is claimed without divergence cuts; reals for floats; LogRepFloat by its C20 contract.",
+}
 NOT_APPLICABLE = {}
